@@ -75,7 +75,7 @@ impl Monitor for C17 {
                 v.push(format!("cat:{n}:{m}"));
             }
         }
-        for i in 0..tier.pick(1500, 60_000) {
+        for i in 0..tier.pick(4000, 60_000) {
             v.push(format!("rnd:{i}"));
         }
         v
